@@ -22,7 +22,7 @@ ASSUMPTIONS = ['CPython datetime/timedelta/calendar', 'vf/oracles/rd_ref.py (sel
                'reading of "carries time information": an absolute time field or a sub-day relative part that is '
                'not a whole number of days (whole days are normalised into days=)']
 MANIFEST = {
-    'technique': 'runtime monitor on relativedelta.__add__/__rsub__ with an independent reference model (lock-step differential)',
+    'technique': 'runtime monitor on relativedelta.__add__/__rsub__ with an independent reference model (lock-step differential); plus the same additions from four free-running threads with injected yields (sys.monitoring), compared with the single-threaded outcomes',
     'level_text': 'The real operators are executed on tens of thousands of seeded operand/delta pairs aimed at the '
                   'boundary classes (month ends, leap days, year 1/9999, carries, negative weekday ordinals); a class-level '
                   'monitor recomputes every result from the client-side constructor arguments with an independent model '
